@@ -405,6 +405,68 @@ func eofValuation(info *types.Info) Valuation {
 	}
 }
 
+// lexLoopMoves: see the call site. Returns "" or the reason the loop cannot observe progress.
+func lexLoopMoves(info *types.Info, fs *ast.ForStmt) string {
+	consumes := func(n ast.Node) bool {
+		hit := false
+		ast.Inspect(n, func(m ast.Node) bool {
+			if call, ok := m.(*ast.CallExpr); ok {
+				if fn := callee(info, call); fn != nil {
+					switch fn.Name() {
+					case "next", "acceptRun", "acceptWord", "acceptOnlyAlphaWord":
+						hit = true
+					}
+				}
+			}
+			return !hit
+		})
+		return hit
+	}
+	// (i) locals tested by the condition
+	if fs.Cond != nil {
+		var tested []types.Object
+		ast.Inspect(fs.Cond, func(m ast.Node) bool {
+			if id, ok := m.(*ast.Ident); ok {
+				if v, ok := objOf(info, id).(*types.Var); ok && !v.IsField() && v.Pkg() != nil && v.Parent() != v.Pkg().Scope() {
+					if _, isSig := v.Type().Underlying().(*types.Pointer); !isSig {
+						tested = append(tested, v)
+					}
+				}
+			}
+			return true
+		})
+		for _, v := range tested {
+			assigned := false
+			for _, part := range []ast.Node{fs.Body, fs.Post} {
+				if part == nil || (part == ast.Node(fs.Post) && fs.Post == nil) {
+					continue
+				}
+				ast.Inspect(part, func(m ast.Node) bool {
+					if as, ok := m.(*ast.AssignStmt); ok {
+						for _, l := range as.Lhs {
+							if identObj(info, l) == v {
+								assigned = true
+							}
+						}
+					}
+					return true
+				})
+			}
+			if !assigned && !consumes(fs.Cond) {
+				return "the loop condition tests " + v.Name() + ", which nothing inside the loop assigns: once true it stays true and the loop never ends"
+			}
+		}
+	}
+	// (ii) consumption
+	if fs.Cond != nil && consumes(fs.Cond) {
+		return ""
+	}
+	if !consumes(fs.Body) && (fs.Post == nil || !consumes(fs.Post)) {
+		return "no iteration of the loop consumes a rune (peek() does not advance): on an input that satisfies the condition the loop never ends"
+	}
+	return ""
+}
+
 func c13Lexer(c *Ctx, r *Report) {
 	const clause = "C13.b"
 	n := 0
@@ -477,6 +539,16 @@ func c13Lexer(c *Ctx, r *Report) {
 				if !blocked {
 					stuck = p
 					break
+				}
+			}
+			// the loop must be able to see the input move: (i) every local the loop condition tests is assigned again
+			// inside the loop (body or post statement), (ii) a continuing iteration consumes a rune (next(), not
+			// just peek()) unless the condition itself does
+			if stuck == nil {
+				if why := lexLoopMoves(info, fs); why != "" {
+					r.Fail(clause, "R9 PROGRESS", construct+"/sees-the-input-move", c.pos(fs.Pos()), why)
+				} else {
+					r.OK(clause, "R9 PROGRESS", construct+"/sees-the-input-move", c.pos(fs.Pos()), "the tested rune is re-read in every iteration and every continuing iteration consumes input")
 				}
 			}
 			if stuck != nil {
